@@ -14,7 +14,7 @@ DOT = ord(".")
 RULES = {
     "C14.1": "CHARABS: exact image of the sanitizer's char->char mapping over a finite partition of char (128 ASCII singletons + 5 non-ASCII classes); '/', '\\\\' and NUL must not be in the image",
     "C14.2": "fallback discipline: if '.' is in the image then the emptiness test that selects the fallback must trim '.' (otherwise the dot-only keys '.' and '..' are returned verbatim); the fallback value starts with a literal that is neither '.' nor a separator and contains no separator; every path on the 'looks empty' edge reaches the fallback assignment before returning",
-    "C14.3": "who-may-push: every PathBuf::push / Path::join in the crate is one of the frozen path-construction sites and its operand originates from sanitize_namespace, now_millis_str (digits) or a string-literal index name; WalPathManager.root is written only by the constructors",
+    "C14.3": "who-may-push: every PathBuf::push / Path::join in the crate is inside the path manager (src/wal/paths.rs) and its operand is the unchanged result of sanitize_namespace (views and copies only - any further transformation is reported), now_millis_str (digits), a literal, or in index_path a literal-suffixed name whose callers pass literals; each of the three constructors reaches a sanitised push; WalPathManager.root is written only by the constructors",
 }
 
 LEMMA = ("If the returned string is non-empty, contains none of '/', '\\\\', NUL and is not made of dots only, it is exactly one "
@@ -250,6 +250,8 @@ def classify_component(facts, body, op):
 
 def check_path_builders(ctx, facts):
     n_sites = 0
+    by_class = {}
+    sanitize_pushers = set()
     for name, body in facts.bodies.items():
         if body.j["derived"]:
             continue
@@ -258,22 +260,38 @@ def check_path_builders(ctx, facts):
         if not sites:
             continue
         ctx.saw_body(body)
-        allowed = PATH_BUILDERS.get(F)
+        in_paths = body.relfile.endswith("wal/paths.rs")
         for s in sites:
             n_sites += 1
             kind = "push" if "push" in callee_name(s.node) else "join"
-            what = "%s %s" % (kind, callee_name(s.node).split("::")[-1])
-            if allowed is None:
+            if not in_paths:
                 ctx.violate("C14.3", F, "path-built-outside-WalPathManager", body.relfile, s.line,
-                            "%s is called in %s, which is not one of the frozen path-construction sites; a path component could bypass the sanitizer" % (callee_name(s.node), F))
+                            "%s is called in %s, outside the path manager (src/wal/paths.rs); a path component could bypass the sanitizer" % (callee_name(s.node), F))
                 continue
             cls, src = classify_component(facts, body, s.node["args"][1])
-            if cls in allowed.get(kind, []) or cls == "literal":
+            # a component is safe when it is the sanitizer's result *unchanged* (views and copies only),
+            # a decimal timestamp, a literal, or - in index_path only, whose callers are checked below -
+            # a literal-suffixed name
+            ok_cls = cls in ("sanitize", "millis", "literal") or (cls == "index-name" and F == "paths::WalPathManager::index_path")
+            if ok_cls:
+                by_class[cls] = by_class.get(cls, 0) + 1
+                if cls == "sanitize":
+                    sanitize_pushers.add(name)
                 ctx.ok("C14.3", F, "%s operand from %s" % (kind, cls), body.relfile, s.line)
             else:
                 ctx.violate("C14.3", F, "unsanitised-%s" % kind, body.relfile, s.line,
-                            "operand of %s originates from %s, expected %s" % (callee_name(s.node), cls, allowed.get(kind)))
-    ctx.floor("C14.3", "path push/join sites", n_sites, 6)
+                            "the operand of %s is not the unchanged result of sanitize_namespace, a timestamp or a literal (it comes from %s): a transformation applied after the "
+                            "sanitizer (trimming, slicing, concatenation) can re-introduce an empty, dot-only or separator-bearing component" % (callee_name(s.node), cls[:120]))
+    for cls, least in (("sanitize", 1), ("millis", 1), ("index-name", 1)):
+        ctx.floor("C14.3", "path components of class " + cls, by_class.get(cls, 0), least)
+    # each constructor reaches a sanitised push (itself or through a helper of paths.rs)
+    for w in ("paths::WalPathManager::default", "paths::WalPathManager::for_key", "paths::WalPathManager::with_data_dir"):
+        b = facts.body(w)
+        reach = facts.closure_reach(b.name) | {b.name}
+        if reach & sanitize_pushers:
+            ctx.ok("C14.3", w, "appends the key through sanitize_namespace", b.relfile, b.line)
+        else:
+            ctx.violate("C14.3", w, "constructor-without-sanitised-push", b.relfile, b.line, "%s does not append a sanitised key to the root" % w)
     # index_path callers must pass string literals (instance files); WalIndex::new is the
     # separately public, user-named index and is out of scope
     idx = facts.body("paths::WalPathManager::index_path")
